@@ -76,6 +76,7 @@ PROPS = {
         "trusted_base": ["x690 decode contract on the TLV term algebra (class registered for the identifier octet)"],
     },
     "C08": {
+        "standins": ["ops-C08"],
         "units": [wire_community.units_rx, seam.units, wire_v3.units_rx], "level": "other", "design_ref": "7.8",
         "technique": VC + "PDU.decode_raw error branch, ErrorResponse.construct/__init__ and the IDENTIFIER table executed for every "
                      "status and index (symbolic integers); _send forces the lazy value",
@@ -97,6 +98,7 @@ PROPS = {
                          "(str(int) injective)"],
     },
     "C15": {
+        "standins": ["ops-C15"],
         "units": [pythonic.units], "level": "other", "design_ref": "7.15",
         "technique": VC + "every PyWrapper method executed against a raw client used by contract (symbolic raw results of "
                      "enumerated container sizes, values of any SNMP class); postconditions: only built-in types (dictionary "
@@ -105,6 +107,7 @@ PROPS = {
                          "x690 ObjectIdentifier(text) / str(oid) contract"],
     },
     "C17": {
+        "standins": ["types"],
         "units": [types_c17.units], "level": "proof", "design_ref": "7.17",
         "technique": VC + "Counter/Counter64/TimeTicks constructors as integer VCs over all integers; TimeTicks.pythonize "
                      "(float code) through a sound real relaxation of IEEE-754 double arithmetic and CPython's timedelta "
@@ -148,6 +151,7 @@ PROPS = {
                          "x690 ObjectIdentifier order/containment contract (assumed, validated by enumeration)"],
     },
     "C07": {
+        "standins": ["ops-C07"],
         "units": [api_ops.units, seam.units, wire_v3.units_emit], "level": "other", "design_ref": "7.7",
         "technique": VC + "every clock read is a fresh symbolic integer; the id placed in the PDU must equal the id "
                      "validated (caller-side obligation at the _send seam); _send itself verified against its contract",
@@ -155,6 +159,7 @@ PROPS = {
                          "x690 Sequence.__iter__, OctetString/Integer.pythonize executed from the x690 source"],
     },
     "C04": {
+        "standins": ["ops-C04"],
         "units": [api_ops.units], "level": "other", "design_ref": "7.4",
         "technique": VC + "request/response list lengths enumerated (proved-shape-bounded), all OIDs, values, ids symbolic",
         "trusted_base": ["Client._send used by its contract above the seam (the contract itself is verified under C07/C08)",
